@@ -23,14 +23,18 @@ Record msg := mkMsg {
   m_type : Z;         (* first byte of the message *)
   m_parse : Z;        (* pull_*: 0 parses | 1 BufferReadError / AlertDecodeError | other: another exception *)
   m_fire : Z;         (* which "other" raise site of the handler fires, 0 = none
-                         (client hello: 1 cipher suite 2 compression 3 version;
-                          server hello: 1 cipher suite 2 compression 3 signature algorithm 4 version 5 ALPN) *)
+                         (client hello: 1 cipher suite 2 compression 3 version 6 key exchange ValueError;
+                          server hello: 1 cipher suite 2 compression 3 signature algorithm 4 version 5 ALPN
+                                        6 key exchange ValueError (invalid public key);
+                          CertificateVerify: 3 algorithm not advertised, 1 certificate public key unusable,
+                                        2 algorithm does not match the certificate's key) *)
   m_psk : bool;       (* ServerHello: pre_shared_key present
                          ClientHello: a PSK is offered and the server finds a valid matching ticket *)
   m_psk_ok : bool;    (* ServerHello: selected index 0 and cipher suite of the ticket
                          ClientHello: binder verifies *)
   m_early : bool;     (* ClientHello: early_data extension present *)
-  m_share : bool;     (* a usable key share is present (else `assert shared_key is not None`) *)
+  m_share : bool;     (* a usable key share is present (else: client AlertIllegalParameter, server
+                         AlertHandshakeFailure -- was `assert shared_key is not None` before fix 9ce6631) *)
   m_nonempty : bool;  (* Certificate: certificate list non-empty *)
   m_load : bool;      (* Certificate: x509.load_der_x509_certificate succeeds *)
   m_sig : bool;       (* CertificateVerify: algorithm was advertised and the signature verifies *)
@@ -81,7 +85,8 @@ Definition client_handle_hello (c : cfg) (s : st) (m : msg) : result :=
   if m_psk m && (negb (s_kpsk s) || negb (m_psk_ok m)) then (OAlert AD_illegal_parameter, s, []) else
   if negb (m_psk m) && negb (s_kproxy s) then (OExn EX_ATTRIBUTE, s, []) else
   let s1 := mkSt (s_state s) (if m_psk m then true else s_resumed s) false false (s_creq s) in
-  if negb (m_share m) then (OExn EX_ASSERT, s1, []) else
+  if negb (m_share m) then (OAlert AD_illegal_parameter, s1, []) else   (* no / unknown-group key share *)
+  if m_fire m =? 6 then (OAlert AD_illegal_parameter, s1, []) else       (* invalid point: ValueError *)
   (OOk, set_state s1 CLIENT_EXPECT_ENCRYPTED_EXTENSIONS, [(DIR_DECRYPT, EP_HANDSHAKE)])).
 
 Definition client_handle_encrypted_extensions (c : cfg) (s : st) (m : msg) : result :=
@@ -96,15 +101,22 @@ Definition client_handle_certificate_request (c : cfg) (s : st) (m : msg) : resu
 
 Definition client_handle_certificate (c : cfg) (s : st) (m : msg) : result :=
   parsed s m (
-  if negb (m_nonempty m) then (OExn EX_INDEX, s, []) else     (* certificate.certificates[0] *)
-  if negb (m_load m) then (OExn EX_VALUE, s, []) else
+  if negb (m_nonempty m) then (OAlert AD_decode_error, s, []) else      (* _set_peer_certificate: empty list *)
+  if negb (m_load m) then (OAlert AD_bad_certificate, s, []) else       (* load_der_x509_certificate ValueError *)
   (OOk, set_state s CLIENT_EXPECT_CERTIFICATE_VERIFY, [])).
 
+(* _check_certificate_verify_signature: not advertised -> decrypt_error; public_key() unusable ->
+   bad_certificate; algorithm/key mismatch -> illegal_parameter; InvalidSignature/ValueError -> decrypt_error *)
+Definition check_cv (s : st) (m : msg) (k : result) : result :=
+  if m_fire m =? 3 then (OAlert AD_decrypt_error, s, []) else
+  if m_fire m =? 1 then (OAlert AD_bad_certificate, s, []) else
+  if m_fire m =? 2 then (OAlert AD_illegal_parameter, s, []) else
+  if negb (m_sig m) then (OAlert AD_decrypt_error, s, []) else k.
+
 Definition client_handle_certificate_verify (c : cfg) (s : st) (m : msg) : result :=
-  parsed s m (
-  if negb (m_sig m) then (OAlert AD_decrypt_error, s, []) else
+  parsed s m (check_cv s m (
   if c_verify c && negb (m_cert m =? 0) then (OAlert (m_cert m), s, []) else
-  (OOk, set_state s CLIENT_EXPECT_FINISHED, [])).
+  (OOk, set_state s CLIENT_EXPECT_FINISHED, []))).
 
 Definition client_handle_finished (c : cfg) (s : st) (m : msg) : result :=
   parsed s m (
@@ -124,7 +136,8 @@ Definition server_handle_hello (c : cfg) (s : st) (m : msg) : result :=
   if m_psk m && negb (m_psk_ok m) then (OAlert AD_handshake_failure, s, []) else
   let s1 := mkSt (s_state s) (if m_psk m then true else s_resumed s) (s_kpsk s) (s_kproxy s) (s_creq s) in
   let k0 := if m_psk m && m_early m then [(DIR_DECRYPT, EP_ZERO_RTT)] else [] in
-  if negb (m_share m) then (OExn EX_ASSERT, s1, k0) else
+  if m_fire m =? 6 then (OAlert AD_illegal_parameter, s1, k0) else      (* invalid public key: ValueError *)
+  if negb (m_share m) then (OAlert AD_handshake_failure, s1, k0) else    (* no supported key share *)
   (OOk,
    set_state s1 (if c_reqcert c then SERVER_EXPECT_CERTIFICATE else SERVER_EXPECT_FINISHED),
    k0 ++ [(DIR_ENCRYPT, EP_HANDSHAKE); (DIR_DECRYPT, EP_HANDSHAKE); (DIR_ENCRYPT, EP_ONE_RTT)])).
@@ -132,13 +145,12 @@ Definition server_handle_hello (c : cfg) (s : st) (m : msg) : result :=
 Definition server_handle_certificate (c : cfg) (s : st) (m : msg) : result :=
   parsed s m (
   if m_nonempty m then
-    if negb (m_load m) then (OExn EX_VALUE, s, []) else
+    if negb (m_load m) then (OAlert AD_bad_certificate, s, []) else
     (OOk, set_state s SERVER_EXPECT_CERTIFICATE_VERIFY, [])
   else (OOk, set_state s SERVER_EXPECT_FINISHED, [])).
 
 Definition server_handle_certificate_verify (c : cfg) (s : st) (m : msg) : result :=
-  parsed s m (
-  if negb (m_sig m) then (OAlert AD_decrypt_error, s, []) else
+  parsed s m (check_cv s m
   (OOk, set_state s SERVER_EXPECT_FINISHED, [])).
 
 Definition server_handle_finished (c : cfg) (s : st) (m : msg) : result :=
